@@ -20,6 +20,20 @@ Proof.
   - reflexivity.
 Qed.
 
+(* the replacement of alias keys becomes a re-filing of entries at locations *)
+Theorem erase_ksubst : forall K ri rv d,
+  erase (ksubst K (NLeaf ri rv) d) = drekey (mask_keys K d) rv (erase d).
+Proof.
+  intros K ri rv d. induction d using node_ind'.
+  - reflexivity.
+  - simpl. f_equal. induction kvs as [|kv r IHr]; simpl; auto.
+    inversion H; subst. destruct H2 as [_ Hv]. rewrite <- IHr by assumption.
+    rewrite Hv. destruct (K (fst kv)); reflexivity.
+  - simpl. f_equal. induction els as [|x r IHr]; simpl; auto.
+    inversion H; subst. rewrite <- IHr by assumption. rewrite H2. reflexivity.
+  - reflexivity.
+Qed.
+
 Theorem erase_prune : forall T d, erase (prune T d) = dprune (mask_prune T d) (erase d).
 Proof.
   intros T d. induction d using node_ind'.
